@@ -18,29 +18,65 @@ import (
 	"github.com/tikv/client-go/v2/tikvrpc"
 )
 
+// the one handler whose glue expectation describes a reported defect instead of the intended behaviour
+const pessRollbackEncodedBounds = true
+
+const splitKey = 3 // a split cluster has the regions [-inf, k3) and [k3, +inf)
+
 type rpcSide struct {
 	st      *mocktikv.MVCCLevelDB
 	cluster *mocktikv.Cluster
 	client  *mocktikv.RPCClient
 	addr    string
-	region  uint64
-	peer    *metapb.Peer
+	regions [2]uint64 // left, right (equal when not split)
+	peers   [2]*metapb.Peer
+	split   bool
+	cur     int // region the next request is addressed to
 }
 
-func newRPCSide() *rpcSide {
+func newRPCSide(split bool) *rpcSide {
 	st, err := mocktikv.NewMVCCLevelDB("")
 	if err != nil {
 		panic(err)
 	}
 	cl := mocktikv.NewCluster(st)
 	storeID, peerID, regionID := mocktikv.BootstrapWithSingleStore(cl)
-	return &rpcSide{st: st, cluster: cl, client: mocktikv.NewRPCClient(cl, st, nil), addr: cl.GetStore(storeID).Address,
-		region: regionID, peer: &metapb.Peer{Id: peerID, StoreId: storeID}}
+	r := &rpcSide{st: st, cluster: cl, client: mocktikv.NewRPCClient(cl, st, nil), addr: cl.GetStore(storeID).Address, split: split}
+	r.regions = [2]uint64{regionID, regionID}
+	r.peers = [2]*metapb.Peer{{Id: peerID, StoreId: storeID}, {Id: peerID, StoreId: storeID}}
+	if split {
+		ids := cl.AllocIDs(2)
+		cl.Split(regionID, ids[0], kb(splitKey), []uint64{ids[1]}, ids[1])
+		r.regions[1] = ids[0]
+		r.peers[1] = &metapb.Peer{Id: ids[1], StoreId: storeID}
+	}
+	return r
+}
+
+// bounds of the addressed region as key ids (0 = unbounded)
+func (r *rpcSide) bounds() (uint64, uint64) {
+	if !r.split {
+		return 0, 0
+	}
+	if r.cur == 0 {
+		return 0, splitKey
+	}
+	return splitKey, 0
+}
+func (r *rpcSide) contains(k uint64) bool {
+	lo, hi := r.bounds()
+	return lo <= k && (hi == 0 || k < hi) // the empty key 0 is contained in the left region only, like every key below k3
+}
+func (r *rpcSide) regionOf(k uint64) int {
+	if r.split && k >= splitKey {
+		return 1
+	}
+	return 0
 }
 
 func (r *rpcSide) ctx(resolved []uint64, rc bool) kvrpcpb.Context {
-	reg, _ := r.cluster.GetRegion(r.region)
-	c := kvrpcpb.Context{RegionId: r.region, RegionEpoch: reg.RegionEpoch, Peer: r.peer, ResolvedLocks: resolved}
+	reg, _ := r.cluster.GetRegion(r.regions[r.cur])
+	c := kvrpcpb.Context{RegionId: r.regions[r.cur], RegionEpoch: reg.RegionEpoch, Peer: r.peers[r.cur], ResolvedLocks: resolved}
 	if rc {
 		c.IsolationLevel = kvrpcpb.IsolationLevel_RC
 	}
@@ -53,6 +89,8 @@ func (r *rpcSide) send(t tikvrpc.CmdType, pb interface{}, c kvrpcpb.Context) (re
 			perr = "panic:" + fmt.Sprint(x)
 			if strings.Contains(perr, "pessimistic lock result count not match") {
 				perr = "PANIC"
+			} else if strings.Contains(perr, "not in region") {
+				perr = "PANIC:region"
 			}
 		}
 	}()
@@ -86,8 +124,107 @@ func pbPairs(ps []*kvrpcpb.KvPair) string {
 	return "[" + strings.Join(p, ";") + "]"
 }
 
-// rpcExpect transforms the direct MVCCStore answer into what the handler must answer. "" = not comparable (the handler
-// ignores the range arguments of this command and the command used a proper sub-range).
+func minEnd(e, hi uint64) uint64 { // the smaller of two upper bounds, 0 = unbounded
+	if e == 0 || (hi != 0 && hi < e) {
+		return hi
+	}
+	return e
+}
+
+// effective picks the region a command is addressed to (r.cur) and returns the MVCCStore-level command the handler is
+// expected to execute for it: key-in-region checks ("" + panic=true when the handler must panic), the range commands'
+// clipping by / replacement with the region bounds. The choice depends on the command text only (replayable).
+func (r *rpcSide) effective(c string) (eff string, wantPanic bool) {
+	f := strings.Split(c, " ")
+	h := 0
+	for i := 0; i < len(c); i++ {
+		h += int(c[i])
+	}
+	r.cur = 0
+	if r.split {
+		r.cur = h % 2
+	}
+	allIn := func(ks []uint64) bool {
+		for _, k := range ks {
+			if !r.contains(k) {
+				return false
+			}
+		}
+		return true
+	}
+	first := func(ks []uint64) {
+		if len(ks) > 0 {
+			r.cur = r.regionOf(ks[0])
+			if h%7 == 0 && r.split { // now and then address the wrong region on purpose
+				r.cur = 1 - r.cur
+			}
+		}
+	}
+	lo, hi := r.bounds()
+	switch f[0] {
+	case "pw":
+		var ks []uint64
+		for _, m := range strings.Split(f[7], ";") {
+			ks = append(ks, pu(strings.Split(m, ":")[1]))
+		}
+		first(ks)
+		return c, !allIn(ks)
+	case "pl":
+		var ks []uint64
+		for _, m := range strings.Split(f[11], ",") {
+			ks = append(ks, pu(strings.Split(m, ":")[0]))
+		}
+		first(ks)
+		return c, !allIn(ks)
+	case "pr":
+		ks := plist(f[3])
+		if len(ks) > 0 {
+			first(ks)
+			return c, !allIn(ks)
+		}
+		lo, hi = r.bounds() // scan form: the whole region ...
+		// ... AS THE CODE IS (reported defect): handleKvPessimisticRollback hands the ENCODED region bounds to the store,
+		// which encodes them again; the doubly encoded bound of k3 sorts between the rows of k3 and k4, so the left
+		// region's scan includes k3 and the right region's scan starts after k3. Intended: (lo, hi) unchanged.
+		if pessRollbackEncodedBounds {
+			if hi != 0 {
+				hi++
+			}
+			if lo != 0 {
+				lo++
+			}
+		}
+		return fmt.Sprintf("pr %s %s - %s %s", hx(lo), hx(hi), f[4], f[5]), false
+	case "cm":
+		first(plist(f[1]))
+		return c, !allIn(plist(f[1]))
+	case "rb": // handleKvBatchRollback has no key-in-region check
+		first(plist(f[1]))
+		return c, false
+	case "bg", "rcbg":
+		first(plist(f[1]))
+		return c, !allIn(plist(f[1]))
+	case "cl", "cs", "hb", "get", "rcget":
+		first([]uint64{pu(f[1])})
+		return c, !r.contains(pu(f[1]))
+	case "dr": // only the start key is checked; the range is not clipped
+		first([]uint64{pu(f[1])})
+		return c, !r.contains(pu(f[1]))
+	case "sc", "rcsc", "rs", "rcrs": // the lower bound must lie in the region, the upper bound is clipped by the region's end
+		first([]uint64{pu(f[1])})
+		_, hi = r.bounds()
+		g := append([]string{}, f...)
+		g[2] = hx(minEnd(pu(f[2]), hi))
+		return strings.Join(g, " "), !r.contains(pu(f[1]))
+	case "rl", "br", "sl", "gc": // the request carries no range: the whole region
+		g := append([]string{}, f...)
+		g[1], g[2] = hx(lo), hx(hi)
+		return strings.Join(g, " "), false
+	}
+	return c, false
+}
+
+// rpcExpect transforms the direct MVCCStore answer (of the effective command) into what the handler must answer.
 func rpcExpect(c string, direct string) string {
 	f := strings.Split(c, " ")
 	inner := func(s string) []string {
@@ -97,7 +234,6 @@ func rpcExpect(c string, direct string) string {
 		}
 		return strings.Split(s, ";")
 	}
-	whole := func(s, e string) bool { return s == "0" && e == "0" }
 	switch f[0] {
 	case "pw": // nil entries dropped; a non-KeyIsLocked error hides everything else
 		var out []string
@@ -112,17 +248,10 @@ func rpcExpect(c string, direct string) string {
 		}
 		return "[" + strings.Join(out, ";") + "]"
 	case "pr":
-		if f[3] == "-" && !whole(f[1], f[2]) {
-			return ""
-		}
 		return "[]"
 	case "rb": // ErrAlreadyCommitted has no KeyError form: Abort
 		if strings.HasPrefix(direct, "AC(") {
 			return "AB:?txn already committed"
-		}
-	case "rl", "br", "sl", "gc":
-		if !whole(f[1], f[2]) {
-			return ""
 		}
 	case "bg", "sc", "rs", "rcbg", "rcsc", "rcrs": // an error pair carries no key
 		var out []string
@@ -333,37 +462,40 @@ func (r *rpcSide) regionErrorProbe(c string) string {
 	return "pass"
 }
 
-// runRPC executes cmds on a direct store and through the handlers, printing one H line per command
-func runRPC(id string, cmds []string) {
+// runRPC executes cmds on a direct store (the handler's effective command) and through the handlers, one H line per command
+func runRPC(id string, cmds []string, split bool) {
 	direct, err := mocktikv.NewMVCCLevelDB("")
 	if err != nil {
 		panic(err)
 	}
 	defer direct.Close()
-	side := newRPCSide()
+	side := newRPCSide(split)
 	defer side.st.Close()
-	fmt.Fprintf(out, "HS\t%s\n", id)
+	cls := "rpc"
+	if split {
+		cls = "rpc2"
+	}
+	fmt.Fprintf(out, "HS\t%s\t%s\n", id, cls)
 	for i, c := range cmds {
-		d := exec(direct, c)
-		want := rpcExpect(c, d)
-		if want == "" { // the handler ignores this command's range: keep both stores in step through the direct call
-			exec(side.st, c)
-			continue
-		}
+		eff, wantPanic := side.effective(c)
 		if i%5 == 2 {
 			if v := side.regionErrorProbe(c); v != "" && v != "pass" {
 				fmt.Fprintf(out, "H\t%s\t%s\t%s\t%s\n", c, "region-error-probe", "-", v)
 			}
 		}
+		want := "PANIC:region"
+		if !wantPanic {
+			want = rpcExpect(c, exec(direct, eff))
+		}
 		got := side.exec(c)
 		verdict := "pass"
 		if got == "skip" {
-			exec(side.st, c)
+			exec(side.st, eff)
 		} else if got != want {
-			verdict = "fail:answer"
+			verdict = "fail:answer (region " + fmt.Sprint(side.cur) + ", effective command " + eff + ")"
 		}
 		if dd, ds := dump(direct), dump(side.st); dd != ds {
-			verdict = "fail:state direct=" + dd + " rpc=" + ds
+			verdict = "fail:state direct=" + dd + " rpc=" + ds + " (region " + fmt.Sprint(side.cur) + ", effective command " + eff + ")"
 		}
 		fmt.Fprintf(out, "H\t%s\t%s\t%s\t%s\n", c, want, got, verdict)
 	}
